@@ -133,10 +133,56 @@ def generate(rng, tier, index):
         return {'actor': o['owner'], 'ver': [1, 2], 'items': [
             {'op': 'Destroy', 'uid': '@' + o['label']}]}
 
+    def use_ops(ref, wref):
+        return [
+            {'op': 'Encrypt', 'uid': ref, 'data': '00' * 16,
+             'cp': {'alg': 3, 'mode': 2, 'padding': 3}},
+            {'op': 'Decrypt', 'uid': ref, 'data': '00' * 16,
+             'cp': {'alg': 3, 'mode': 2, 'padding': 3}},
+            {'op': 'MAC', 'uid': ref, 'data': '0102', 'cp': {'alg': 9}},
+            {'op': 'Get', 'uid': wref, 'wrapspec': {
+                'method': 1, 'enc': {'uid': ref, 'cp': {'mode': 0xD}},
+                'encoding': 1}},
+            {'op': 'DeriveKey', 'otype': 'SymmetricKey', 'uids': [ref],
+             'method': 3, 'params': {'cp': {'hash': 6}, 'data': 'aabb'},
+             'attrs': [gen.A('Cryptographic Length', 128),
+                       gen.A('Cryptographic Algorithm', 3),
+                       gen.A('Cryptographic Usage Mask', 12)]}]
+
     for i in range(n):
         a = r.randrange(nact)
         x = r.random()
         st = None
+        if i >= 2 and x < 0.05 and len(steps) < 60:
+            # a key that was USED while it lived, then revoked and
+            # destroyed: the same uses by the same client must now fail as
+            # not found, whatever the server kept from the earlier uses
+            lab = ctx.label()
+            mk = {'op': 'Register', 'label': lab, 'otype': 'SymmetricKey',
+                  'attrs': [gen.A('Cryptographic Usage Mask',
+                                  gen.ALL_MASK)],
+                  'obj': {'kft': 1, 'value': ctx.rbytes(16), 'alg': 3,
+                          'len': 128}}
+            victim = {'op': 'Register', 'label': lab + 'v',
+                      'otype': 'SymmetricKey',
+                      'attrs': [gen.A('Cryptographic Usage Mask', 12)],
+                      'obj': {'kft': 1, 'value': ctx.rbytes(16), 'alg': 3,
+                              'len': 128}}
+            gen.note(ctx, lab + 'v', 'SymmetricKey', a, 12)
+            ref = '@' + lab
+            uses = r.sample(use_ops(ref, '@' + lab + 'v'), r.choice([1, 2, 3]))
+            for op in [mk, victim, {'op': 'Activate', 'uid': ref}] + uses:
+                steps.append({'actor': a, 'ver': [1, 2], 'items': [op]})
+            steps.append({'actor': a, 'ver': [1, 2], 'items': [
+                {'op': 'Revoke', 'uid': ref, 'code': r.choice([1, 2])}]})
+            steps.append({'actor': a, 'ver': [1, 2], 'items': [
+                {'op': 'Destroy', 'uid': ref}]})
+            for op in uses:
+                steps.append({'actor': a, 'ver': [1, 2],
+                              'items': [copy.deepcopy(op)], 'dead': True,
+                              'dead_role': 'direct' if op.get('uid') == ref
+                              else 'indirect'})
+            continue
         if i < 2 or x < 0.28 or not ctx.objs:
             st = creator(a)
         elif x < 0.36:
